@@ -54,6 +54,8 @@ theorem core_spelled (cfg : Config) (s : St) (h : core cfg s = true) :
     ∧ s.hookRuns ≤ 1 ∧ s.nestedStarts ≤ 1
     -- start() is never called after the hook (skip-start mode: the hook runs instead of start())
     ∧ s.startAfterHook = false
+    -- every call of the hook was decided on a state_ value without `completed`
+    ∧ s.hookLate = false
     -- a completion with done comes from the hook
     ∧ (s.doneWins = 0 ∨ s.hookRuns = 1)
     -- no deadlock: spin on the stack-local flag, wait for a running stop callback in cleanup_
@@ -62,8 +64,8 @@ theorem core_spelled (cfg : Config) (s : St) (h : core cfg s = true) :
     ∧ (final cfg s = true → s.completions = 1 ∧ s.freed = true) := by
   unfold core at h
   simp only [Bool.and_eq_true, decide_eq_true_eq, Bool.or_eq_true, Bool.not_eq_true'] at h
-  obtain ⟨⟨⟨⟨⟨⟨⟨h1, h2⟩, h3⟩, h4⟩, h5⟩, h6⟩, h7⟩, h8⟩ := h
-  refine ⟨h1, h2, h3, h4, h5, h6, ?_, ?_⟩
+  obtain ⟨⟨⟨⟨⟨⟨⟨⟨h1, h2⟩, h3⟩, h4⟩, h5⟩, hl⟩, h6⟩, h7⟩, h8⟩ := h
+  refine ⟨h1, h2, h3, h4, h5, hl, h6, ?_, ?_⟩
   · intro hd
     rcases h7 with h7 | h7
     · simp [hd] at h7
@@ -87,7 +89,7 @@ theorem one_winner (cfg : Config) (hc : ∀ s, Reach (sys cfg) s → core cfg s 
     ∀ s, Reach (sys cfg) s → s.completions ≤ 1 ∧ s.tcTrue ≤ 1 ∧ (final cfg s = true → s.completions = 1) := by
   intro s hs
   have h := core_spelled cfg s (hc s hs)
-  exact ⟨h.1, h.2.1, fun hf => (h.2.2.2.2.2.2.2 hf).1⟩
+  exact ⟨h.1, h.2.1, fun hf => (h.2.2.2.2.2.2.2.2 hf).1⟩
 
 /-- `stop_hook_at_most_once_only_started_uncompleted`: the hook runs at most once, never before a
     later start(), and (from `safe`) is never entered for an op whose receiver is completed. -/
@@ -97,6 +99,14 @@ theorem stop_hook_at_most_once (cfg : Config) (hc : ∀ s, Reach (sys cfg) s →
   have h := core_spelled cfg s (hc s hs)
   exact ⟨h.2.2.1, h.2.2.2.1, h.2.2.2.2.1⟩
 
+/-- the hook is only called for an operation whose completion nobody has claimed: the `state_` value
+    observed by the deciding atomic operation (stop callback's `fetch_or(stopped)`, start()'s
+    `fetch_or(started)`, the StopsEarly load) never has the `completed` bit -/
+theorem stop_hook_only_unclaimed (cfg : Config) (hc : ∀ s, Reach (sys cfg) s → core cfg s = true) :
+    ∀ s, Reach (sys cfg) s → s.hookLate = false := by
+  intro s hs
+  exact (core_spelled cfg s (hc s hs)).2.2.2.2.2.1
+
 /-- `no_touch_after_winner`: in a configuration whose `safe` closure check succeeds nothing touches
     the op state after the winner completed the receiver. -/
 theorem no_touch_after_winner (cfg : Config) (hs : ∀ s, Reach (sys cfg) s → safe cfg s = true) :
@@ -105,7 +115,7 @@ theorem no_touch_after_winner (cfg : Config) (hs : ∀ s, Reach (sys cfg) s → 
 theorem no_deadlock (cfg : Config) (hc : ∀ s, Reach (sys cfg) s → core cfg s = true) :
     ∀ s, Reach (sys cfg) s → ((sys cfg).next s).isEmpty = true → final cfg s = true := by
   intro s hs
-  exact (core_spelled cfg s (hc s hs)).2.2.2.2.2.2.1
+  exact (core_spelled cfg s (hc s hs)).2.2.2.2.2.2.2.1
 
 end Cancellable
 
@@ -172,12 +182,19 @@ theorem safe_spelled (cfg : Config) (s : St) (h : safe cfg s = true) :
     ∧ (s.aliveRes = 2 → s.deadAtAlive = true)
     -- `canary_no_deadlock` (second half of guard_blocks…: the destructor is blocked ONLY while held)
     ∧ (((sys cfg).next s).isEmpty = true → final cfg s = true)
-    ∧ (final cfg s = true → s.canaryFreed = true ∧ s.watcherFreed = true ∧ s.guardHeld = false) := by
+    ∧ (final cfg s = true → s.canaryFreed = true ∧ s.watcherFreed = true ∧ s.guardHeld = false)
+    -- guard objects: at most one refers to the watcher's state (a moved-from guard does not), and
+    -- only while the guard is held
+    ∧ (s.g1 = true → s.g2 = false)
+    ∧ (s.g1 = true ∨ s.g2 = true → s.guardHeld = true) := by
   unfold safe at h
   simp only [Bool.and_eq_true, decide_eq_true_eq, Bool.or_eq_true, Bool.not_eq_true', ne_eq,
     decide_not] at h
-  obtain ⟨⟨⟨⟨h1, h2⟩, h3⟩, h4⟩, h5⟩ := h
-  refine ⟨h1, ?_, ?_, ?_, ?_⟩
+  obtain ⟨⟨⟨⟨⟨⟨h1, h2⟩, hA⟩, hB⟩, h3⟩, h4⟩, h5⟩ := h
+  refine ⟨h1, ?_, ?_, ?_, ?_, ?_, ?_⟩
+  rotate_left 4
+  · intro hg; revert hA; cases s.g2 <;> simp [hg]
+  · intro hg; revert hB; cases s.guardHeld <;> rcases hg with hg | hg <;> simp [hg]
   · intro hg
     rcases h2 with h2 | h2
     · simp [hg] at h2
